@@ -219,6 +219,10 @@ def main(argv=None):
             harness_errors.append("refuted without parsable counterexample: %s: %s" % (n, r.get("message", "")[:500]))
         if r.get("verdict") == "ERROR":
             harness_errors.append("worker error in %s: %s" % (n, r.get("message", "")[:800]))
+        if r.get("verdict") == "PRE_UNSAT" and getattr(o, "excluded", None):
+            # the whole input space of this obligation lies inside a recorded known-finding region (witness replayed above)
+            r["verdict"] = "EXCLUDED_KNOWN_FINDING"
+            continue
         if r.get("verdict") == "PRE_UNSAT" or (o.twin and r.get("twin") == "unreached" and r.get("verdict") == "CONFIRMED"):
             harness_errors.append("vacuous obligation %s: %s" % (n, r.get("message", "")[:300]))
 
